@@ -32,6 +32,7 @@ package c06
 // token / denom the op named.  Addresses are canonicalised to small ids.
 
 import (
+	"crypto/sha256"
 	"encoding/hex"
 	"encoding/json"
 	"fmt"
@@ -67,9 +68,46 @@ import (
 
 type denomRef struct {
 	// "c": ordinary coin ucoin<N>; "e": erc20/<address of token N>; "g": the gas coin unibi;
-	// "t": tokenfactory denom tf/<account N/10>/sub<N%10>
+	// "t": tokenfactory denom tf/<account N/10>/sub<N%10>; "i": IBC voucher ibc/<SHA256("transfer/channel-N/uatom")>
 	K string `json:"k"`
 	N int    `json:"n"`
+	// Sp: SPELLING of that name. 0 = the string the chain itself uses (voucher hash in upper-case hex, EIP55 address);
+	// 1.. = other strings that differ from it only by letter case (see spell): different bank denoms for the chain.
+	Sp int `json:"sp,omitempty"`
+}
+
+const maxSp = 3
+
+// spell: the sp-th spelling of a denom string. 1: all lower case (all upper case when the string has no upper-case
+// letter); 2: all upper case (first letter capitalised when …); 3: the letters after the last '/' in alternating case.
+func spell(s string, sp int) string {
+	lower, upper := strings.ToLower(s), strings.ToUpper(s)
+	switch sp {
+	case 0:
+		return s
+	case 1:
+		if s != lower {
+			return lower
+		}
+		return upper
+	case 2:
+		if s != lower {
+			return upper
+		}
+		return strings.ToUpper(s[:1]) + s[1:]
+	}
+	i := strings.LastIndex(s, "/") + 1
+	b := []byte(lower)
+	k := 0
+	for j := i; j < len(b); j++ {
+		if b[j] >= 'a' && b[j] <= 'z' {
+			if k%2 == 1 {
+				b[j] -= 'a' - 'A'
+			}
+			k++
+		}
+	}
+	return string(b)
 }
 
 type c06Op struct {
@@ -101,6 +139,22 @@ type mapObs struct {
 	BMod string   `json:"bmod"` // bank balance of the EVM module for the denom
 }
 
+type mapRef struct {
+	Tok  int      `json:"tok"`
+	D    denomRef `json:"d"`
+	Coin bool     `json:"coin"`
+}
+
+// one lookup through a real index of the FunTokens collection and what it returned
+type lkDen struct {
+	D denomRef `json:"d"` // FunTokens.Indexes.BankDenom.ExactMatch(<this spelling>)
+	M []mapRef `json:"m"`
+}
+type lkTok struct {
+	T int      `json:"t"` // FunTokens.Indexes.ERC20Addr.ExactMatch(<address of token T>)
+	M []mapRef `json:"m"`
+}
+
 type stepObs struct {
 	Ok   bool      `json:"ok"`
 	Fail bool      `json:"fail"` // tx not accepted (used with Gas to recognise out-of-gas outcomes)
@@ -109,6 +163,10 @@ type stepObs struct {
 	TD   *denomRef `json:"td"` // touched denom or null
 	EBal []string  `json:"ebal"`
 	BBal []string  `json:"bbal"`
+	// after every CreateFunToken (accepted or not): the registry as the two indexes answer, under every spelling of the
+	// named denom and every registered denom / for every known contract
+	LkD []lkDen `json:"lkd,omitempty"`
+	LkT []lkTok `json:"lkt,omitempty"`
 }
 
 // forwarder runtime (assembled by hand, see /verif/coq/C06/README.md):
@@ -154,6 +212,8 @@ type world struct {
 	cold  gethcommon.Address       // id 6
 	toks  []gethcommon.Address     // token id -> address
 	inBlk int
+	// every denom string an op of this case has spelled so far (index lookups are made under each of them)
+	spelled []string
 	// unibi supply that belongs to the rest of genesis (validators, pools, …), outside the modelled accounts
 	gasOutside sdkmath.Int
 }
@@ -224,6 +284,11 @@ func (w *world) denom(d *denomRef) string {
 	if d == nil {
 		return "unone"
 	}
+	return spell(w.chainDenom(d), d.Sp)
+}
+
+// chainDenom: the name in the spelling the chain itself uses
+func (w *world) chainDenom(d *denomRef) string {
 	if d.K == "e" {
 		return "erc20/" + w.tokAddr(d.N).String()
 	}
@@ -232,6 +297,10 @@ func (w *world) denom(d *denomRef) string {
 	}
 	if d.K == "t" {
 		return tftypes.TFDenom{Creator: w.nibi(d.N / 10).String(), Subdenom: fmt.Sprintf("sub%d", d.N%10)}.Denom().String()
+	}
+	if d.K == "i" {
+		h := sha256.Sum256([]byte(fmt.Sprintf("transfer/channel-%d/uatom", d.N)))
+		return "ibc/" + strings.ToUpper(hex.EncodeToString(h[:]))
 	}
 	return fmt.Sprintf("ucoin%d", d.N)
 }
@@ -245,31 +314,54 @@ func (w *world) tokID(a gethcommon.Address) int {
 	return -1
 }
 
+// denomRefOf: the exact inverse of denom over the names and spellings a case can use (strings are compared byte for
+// byte: a registry entry under another spelling of a name is reported as that other spelling).
 func (w *world) denomRefOf(s string) denomRef {
-	if s == evm.EVMBankDenom {
-		return denomRef{K: "g"}
-	}
-	if strings.HasPrefix(s, "ucoin") {
-		if n, err := strconv.Atoi(s[5:]); err == nil {
-			return denomRef{K: "c", N: n}
+	try := func(k string, n int) (denomRef, bool) {
+		for sp := 0; sp <= maxSp; sp++ {
+			if r := (denomRef{K: k, N: n, Sp: sp}); w.denom(&r) == s {
+				return r, true
+			}
 		}
+		return denomRef{}, false
 	}
-	if strings.HasPrefix(s, "tf/") {
+	low := strings.ToLower(s)
+	switch {
+	case low == evm.EVMBankDenom:
+		if r, ok := try("g", 0); ok {
+			return r
+		}
+	case strings.HasPrefix(low, "ucoin"):
+		if n, err := strconv.Atoi(s[5:]); err == nil {
+			if r, ok := try("c", n); ok {
+				return r
+			}
+		}
+	case strings.HasPrefix(low, "tf/"):
 		for id := 1; id <= 6; id++ {
 			for k := 0; k < 10; k++ {
-				if r := (denomRef{K: "t", N: id*10 + k}); w.denom(&r) == s {
+				if r, ok := try("t", id*10+k); ok {
 					return r
 				}
 			}
 		}
-	}
-	if strings.HasPrefix(s, "erc20/") {
+	case strings.HasPrefix(low, "ibc/"):
+		for n := 0; n < 8; n++ {
+			if r, ok := try("i", n); ok {
+				return r
+			}
+		}
+	case strings.HasPrefix(low, "erc20/"):
 		a := gethcommon.HexToAddress(s[6:])
 		if id := w.tokID(a); id >= 0 {
-			return denomRef{K: "e", N: id}
+			if r, ok := try("e", id); ok {
+				return r
+			}
 		}
 		if v := new(big.Int).Sub(new(big.Int).SetBytes(a.Bytes()), big.NewInt(0xdead0000)); v.Sign() >= 0 && v.IsInt64() && v.Int64() < 1000 {
-			return denomRef{K: "e", N: int(v.Int64())}
+			if r, ok := try("e", int(v.Int64())); ok {
+				return r
+			}
 		}
 	}
 	return denomRef{K: "c", N: 999}
@@ -363,7 +455,7 @@ func (w *world) cosmosMsg(op c06Op) sdk.Msg {
 	case "create_erc20":
 		return &evm.MsgCreateFunToken{FromErc20: &eth.EIP55Addr{Address: w.tokAddr(op.T)}, Sender: w.nibi(op.A).String()}
 	case "tf_create":
-		if op.D == nil || op.D.K != "t" || op.D.N/10 != op.A {
+		if op.D == nil || op.D.K != "t" || op.D.Sp != 0 || op.D.N/10 != op.A {
 			return nil
 		}
 		return &tftypes.MsgCreateDenom{Sender: w.nibi(op.A).String(), Subdenom: fmt.Sprintf("sub%d", op.D.N%10)}
@@ -449,7 +541,7 @@ func (w *world) run(op c06Op) bool {
 	}
 	switch op.K {
 	case "fund":
-		if op.D == nil || op.D.K == "e" || x.Sign() < 0 {
+		if op.D == nil || (op.D.K == "e" && op.D.Sp == 0) || x.Sign() < 0 {
 			return false
 		}
 		coins := sdk.NewCoins(sdk.NewCoin(w.denom(op.D), sdkmath.NewIntFromBigInt(x)))
@@ -458,11 +550,11 @@ func (w *world) run(op c06Op) bool {
 		}
 		return c.Fund(w.nibi(op.A), coins) == nil
 	case "meta":
-		if op.D == nil || op.D.K == "e" {
+		if op.D == nil || (op.D.K == "e" && op.D.Sp == 0) {
 			return false
 		}
 		d := w.denom(op.D)
-		if op.D.K == "g" {
+		if op.D.K == "g" && op.D.Sp == 0 {
 			c.App.BankKeeper.SetDenomMetaData(c.Ctx(), bank.Metadata{
 				DenomUnits: []*bank.DenomUnit{{Denom: d, Exponent: 0}, {Denom: "NIBI", Exponent: 6}}, Base: d, Display: "NIBI", Name: "NIBI", Symbol: "NIBI",
 			})
@@ -573,19 +665,57 @@ func (w *world) observe(op c06Op, ok bool) stepObs {
 	erc := k.ERC20()
 	abiERC := embeds.SmartContract_ERC20MinterWithMetadataUpdates.ABI
 	o := stepObs{Ok: ok, Fail: !ok, Reg: []mapObs{}, TT: -1, EBal: []string{}, BBal: []string{}}
-	fts := k.FunTokens.Iterate(ctx, collections.Range[[]byte]{}).Values()
+	prim := k.FunTokens.Iterate(ctx, collections.Range[[]byte]{}).Values()
 	// contracts deployed by the module get the next token ids, in address order when several are new
 	var fresh []gethcommon.Address
-	for _, ft := range fts {
-		if w.tokID(ft.Erc20Addr.Address) < 0 {
+	for _, ft := range prim {
+		if w.tokID(ft.Erc20Addr.Address) < 0 && !containsAddr(fresh, ft.Erc20Addr.Address) {
 			fresh = append(fresh, ft.Erc20Addr.Address)
 		}
 	}
 	sort.Slice(fresh, func(i, j int) bool { return fresh[i].Hex() < fresh[j].Hex() })
 	w.toks = append(w.toks, fresh...)
+	// the registry is read through the REAL indexes: by bank denom under every string spelled so far and every
+	// registered denom, by ERC20 address for every known contract; then the primary map (entries the indexes miss)
+	byDenom := func(d string) []evm.FunToken {
+		return k.FunTokens.Collect(ctx, k.FunTokens.Indexes.BankDenom.ExactMatch(ctx, d))
+	}
+	byTok := func(a gethcommon.Address) []evm.FunToken {
+		return k.FunTokens.Collect(ctx, k.FunTokens.Indexes.ERC20Addr.ExactMatch(ctx, a))
+	}
+	var fts []evm.FunToken
+	seenFt := map[string]bool{}
+	add := func(xs []evm.FunToken) {
+		for _, ft := range xs {
+			key := fmt.Sprintf("%s|%s|%v", ft.Erc20Addr.Address.Hex(), ft.BankDenom, ft.IsMadeFromCoin)
+			if !seenFt[key] {
+				seenFt[key] = true
+				fts = append(fts, ft)
+			}
+		}
+	}
+	univ := append([]string{}, w.spelled...)
+	for _, ft := range prim {
+		univ = append(univ, ft.BankDenom)
+	}
+	seenD := map[string]bool{}
+	for _, d := range univ {
+		if !seenD[d] {
+			seenD[d] = true
+			add(byDenom(d))
+		}
+	}
+	for _, a := range w.toks {
+		add(byTok(a))
+	}
+	add(prim)
+	refOf := func(ft evm.FunToken) mapRef {
+		return mapRef{Tok: w.tokID(ft.Erc20Addr.Address), D: w.denomRefOf(ft.BankDenom), Coin: ft.IsMadeFromCoin}
+	}
 	for _, ft := range fts {
 		a := ft.Erc20Addr.Address
-		m := mapObs{Tok: w.tokID(a), D: w.denomRefOf(ft.BankDenom), Coin: ft.IsMadeFromCoin}
+		r := refOf(ft)
+		m := mapObs{Tok: r.Tok, D: r.D, Coin: r.Coin}
 		m.ESup = bigStr(erc.LoadERC20BigInt(ctx, evmObj, abiERC, a, "totalSupply"))
 		m.EMod = bigStr(erc.BalanceOf(a, evm.EVM_MODULE_ADDRESS, ctx, evmObj))
 		m.BSup = bk.GetSupply(ctx, ft.BankDenom).Amount.String()
@@ -595,11 +725,61 @@ func (w *world) observe(op c06Op, ok bool) stepObs {
 		m.BMod = bk.GetBalance(ctx, w.nibi(0), ft.BankDenom).Amount.String()
 		o.Reg = append(o.Reg, m)
 	}
+	// after a CreateFunToken: what each index answers under every spelling of the named denom / for every contract
+	var created []c06Op
+	for _, sub := range flatOps(op) {
+		if sub.K == "create_coin" || sub.K == "create_erc20" {
+			created = append(created, sub)
+		}
+	}
+	if len(created) > 0 {
+		var asked []denomRef
+		ask := func(r denomRef) {
+			for _, q := range asked {
+				if q == r {
+					return
+				}
+			}
+			asked = append(asked, r)
+		}
+		for _, sub := range created {
+			named := denomRef{K: "e", N: sub.T}
+			if sub.K == "create_coin" {
+				if sub.D == nil {
+					continue
+				}
+				named = *sub.D
+			}
+			for sp := 0; sp <= maxSp; sp++ {
+				ask(denomRef{K: named.K, N: named.N, Sp: sp})
+			}
+		}
+		for _, ft := range fts {
+			ask(w.denomRefOf(ft.BankDenom))
+		}
+		for _, q := range asked {
+			q := q
+			l := lkDen{D: q, M: []mapRef{}}
+			for _, ft := range byDenom(w.denom(&q)) {
+				l.M = append(l.M, refOf(ft))
+			}
+			o.LkD = append(o.LkD, l)
+		}
+		for t, a := range w.toks {
+			l := lkTok{T: t, M: []mapRef{}}
+			for _, ft := range byTok(a) {
+				l.M = append(l.M, refOf(ft))
+			}
+			o.LkT = append(o.LkT, l)
+		}
+	}
 	sort.SliceStable(o.Reg, func(i, j int) bool {
 		if o.Reg[i].Tok != o.Reg[j].Tok {
 			return o.Reg[i].Tok < o.Reg[j].Tok
 		}
-		return o.Reg[i].D.K+strconv.Itoa(o.Reg[i].D.N) < o.Reg[j].D.K+strconv.Itoa(o.Reg[j].D.N)
+		ki := fmt.Sprintf("%s/%04d/%d", o.Reg[i].D.K, o.Reg[i].D.N, o.Reg[i].D.Sp)
+		kj := fmt.Sprintf("%s/%04d/%d", o.Reg[j].D.K, o.Reg[j].D.N, o.Reg[j].D.Sp)
+		return ki < kj
 	})
 	// the token / denom this op names, completed through the registry
 	tt, td := -1, (*denomRef)(nil)
@@ -638,7 +818,7 @@ func (w *world) observe(op c06Op, ok bool) stepObs {
 	if td != nil {
 		o.TD = td
 		for _, id := range accts {
-			if td.K == "g" && id >= 1 && id <= 4 {
+			if td.K == "g" && td.Sp == 0 && id >= 1 && id <= 4 {
 				o.BBal = append(o.BBal, "-1") // pays transaction gas / fees in this coin: not compared
 				continue
 			}
@@ -648,9 +828,30 @@ func (w *world) observe(op c06Op, ok bool) stepObs {
 	return o
 }
 
+func containsAddr(xs []gethcommon.Address, a gethcommon.Address) bool {
+	for _, x := range xs {
+		if x == a {
+			return true
+		}
+	}
+	return false
+}
+
+func flatOps(op c06Op) []c06Op {
+	if op.K == "seq" {
+		return op.Ops
+	}
+	return []c06Op{op}
+}
+
 func (w *world) runCase(ops []c06Op) []stepObs {
 	var obs []stepObs
 	for _, op := range ops {
+		for _, sub := range flatOps(op) {
+			if sub.D != nil {
+				w.spelled = append(w.spelled, w.denom(sub.D))
+			}
+		}
 		if w.inBlk >= 6 {
 			w.c.EndBlock()
 			w.c.BeginBlock(5 * time.Second)
@@ -688,9 +889,10 @@ type gen struct {
 	erc   map[int]map[int]int64
 	tf    []denomRef       // factory denoms created so far
 	admin map[denomRef]int // … and their admins
+	ibc   []denomRef       // IBC vouchers (chain spelling) the bank knows
 }
 
-func gasPayer(d denomRef, a int) bool { return d.K == "g" && a >= 1 && a <= 4 }
+func gasPayer(d denomRef, a int) bool { return d.K == "g" && d.Sp == 0 && a >= 1 && a <= 4 }
 
 // the gas payers hold ~10^17 unibi; the shadow pretends a small balance so that amounts stay far from the real one
 func (g *gen) bbal(d denomRef, a int) int64 {
@@ -784,9 +986,53 @@ func (g *gen) pickMap(coin int) (shadowMap, bool) { // coin: 1 coin-born, 0 erc-
 	return c[g.r.Intn(len(c))], true
 }
 
+// respell: another spelling of the same name
+func (g *gen) respell(d denomRef) denomRef {
+	sp := g.r.Range(1, maxSp)
+	if sp == d.Sp {
+		sp = 0
+	}
+	return denomRef{K: d.K, N: d.N, Sp: sp}
+}
+
+// spellingOp: the class "one name, several strings": CreateFunToken / metadata / funds / conversions under another
+// spelling of a denom that is already mapped (or at least known to the bank)
+func (g *gen) spellingOp() c06Op {
+	r := g.r
+	var base denomRef
+	if m, ok := g.pickMap(-1); ok && !r.Chance(1, 5) {
+		base = m.d
+	} else if len(g.ibc) > 0 && !r.Chance(1, 4) {
+		base = g.ibc[r.Intn(len(g.ibc))]
+	} else {
+		base = g.coinDenom()
+	}
+	d := g.respell(base)
+	if base.Sp > 0 && r.Chance(1, 3) {
+		d = base // the very string of a mapping that itself sits under a non-chain spelling
+	}
+	switch r.Pick(10, 4, 2, 2, 2) {
+	case 0:
+		return c06Op{K: "create_coin", A: r.Range(3, 4), D: &d}
+	case 1:
+		return c06Op{K: "meta", D: &d}
+	case 2:
+		return c06Op{K: "fund", A: r.Range(3, 5), D: &d, X: strconv.Itoa(r.Range(20, 400))}
+	case 3:
+		a, bal := g.holder([]int{3, 4}, func(a int) int64 { return g.bbal(d, a) })
+		return c06Op{K: "convert", A: a, D: &d, X: g.amount(bal), To: g.anyTo(), Fmt: "hex"}
+	default:
+		a, bal := g.holder(evmActors, func(a int) int64 { return g.bbal(d, a) })
+		return g.evmSide(c06Op{K: "send_to_evm", A: a, D: &d, X: g.amount(bal), To: g.anyTo()}, true)
+	}
+}
+
 func (g *gen) coinDenom() denomRef {
 	if len(g.tf) > 0 && g.r.Chance(1, 3) {
 		return g.tf[g.r.Intn(len(g.tf))]
+	}
+	if len(g.ibc) > 0 && g.r.Chance(1, 4) {
+		return g.ibc[g.r.Intn(len(g.ibc))]
 	}
 	if g.r.Chance(1, 4) {
 		return denomRef{K: "g"}
@@ -937,7 +1183,7 @@ func (g *gen) note(op c06Op) {
 		g.addE(g.ntok, op.A, sup)
 		g.ntok++
 	case "create_coin":
-		if op.D.K != "e" && g.meta[*op.D] && !g.isMappedDen(*op.D) {
+		if (op.D.K != "e" || op.D.Sp != 0) && g.meta[*op.D] && !g.isMappedDen(*op.D) {
 			g.maps = append(g.maps, shadowMap{tok: g.ntok, d: *op.D, coin: true})
 			g.kinds = append(g.kinds, "minter")
 			g.ntok++
@@ -977,7 +1223,9 @@ var evmActors = []int{1, 2, 5}
 
 func (g *gen) randomOp() {
 	r := g.r
-	switch r.Pick(6, 7, 15, 18, 15, 6, 13, 5, 3, 2, 12, 12) {
+	switch r.Pick(6, 7, 15, 18, 15, 6, 13, 5, 3, 2, 12, 12, 10) {
+	case 12: // the same name under another spelling
+		g.push(g.spellingOp())
 	case 0: // create from coin
 		d := g.coinDenom()
 		if r.Chance(1, 15) && g.ntok > 0 {
@@ -1243,6 +1491,34 @@ func genCase(r *Rng) []c06Op {
 			g.push(c06Op{K: "convert", A: a, D: &td, X: strconv.Itoa(r.Range(50, 190)), To: r.Range(1, 2), Fmt: "hex"})
 		}
 	}
+	// an IBC voucher "ibc/<HASH>" with holders, (mostly) mapped, then re-registration attempts under other spellings of
+	// the hash (with and without bank metadata under that spelling) and conversions afterwards
+	if r.Chance(3, 5) {
+		id := denomRef{K: "i", N: r.Intn(3)}
+		g.ibc = append(g.ibc, id)
+		g.push(c06Op{K: "meta", D: &id})
+		for _, a := range []int{3, 4, 5, 1} {
+			g.push(c06Op{K: "fund", A: a, D: &id, X: strconv.Itoa(r.Range(100, 3000))})
+		}
+		if r.Chance(1, 3) {
+			alt := g.respell(id)
+			g.push(c06Op{K: "meta", D: &alt})
+			g.push(c06Op{K: "fund", A: 3, D: &alt, X: strconv.Itoa(r.Range(50, 500))})
+		}
+		if r.Chance(1, 4) { // a spelling registered BEFORE the chain's own
+			alt := g.respell(id)
+			g.push(c06Op{K: "create_coin", A: 4, D: &alt})
+		}
+		if r.Chance(7, 8) {
+			g.push(c06Op{K: "create_coin", A: r.Range(3, 4), D: &id})
+			g.push(c06Op{K: "convert", A: 3, D: &id, X: strconv.Itoa(r.Range(20, 90)), To: r.Range(1, 2), Fmt: "hex"})
+		}
+		for i, n := 0, r.Range(1, 3); i < n; i++ {
+			alt := g.respell(id)
+			g.push(c06Op{K: "create_coin", A: r.Range(3, 4), D: &alt})
+		}
+		g.push(c06Op{K: "convert", A: 4, D: &id, X: strconv.Itoa(r.Range(5, 60)), To: []int{1, 2, 5}[r.Intn(3)], Fmt: "hex"})
+	}
 	// mostly create the mappings early
 	if r.Chance(4, 5) {
 		g.push(c06Op{K: "create_coin", A: 3, D: &denomRef{K: "c", N: r.Intn(nd)}})
@@ -1357,6 +1633,33 @@ func openers() [][]c06Op {
 			{K: "send_to_bank", A: 5, T: 0, X: "40", To: 3, Fmt: "hex", Frame: "swallow"},
 			{K: "erc20_transfer", A: 5, T: 0, X: "10", To: 0, Frame: "plain"},
 			{K: "send_to_bank", A: 1, T: 0, X: "1", To: 3, Fmt: "hex"},
+		}),
+		// one name, several strings: an IBC voucher and the same hash in lower / mixed case, "UCOIN0", a lower-case
+		// "erc20/0x…": each string is its own bank denom (own metadata, own mapping, own escrow)
+		cat(pre, []c06Op{
+			{K: "meta", D: &denomRef{K: "i"}}, {K: "fund", A: 3, D: &denomRef{K: "i"}, X: "900"}, {K: "fund", A: 3, D: &denomRef{K: "i", Sp: 1}, X: "70"},
+			{K: "create_coin", A: 3, D: &denomRef{K: "i"}}, {K: "create_coin", A: 4, D: &denomRef{K: "i"}},
+			{K: "convert", A: 3, D: &denomRef{K: "i"}, X: "100", To: 1, Fmt: "hex"},
+			{K: "create_coin", A: 4, D: &denomRef{K: "i", Sp: 1}}, // no metadata under this string
+			{K: "create_coin", A: 4, D: &denomRef{K: "i", Sp: 3}},
+			{K: "convert", A: 3, D: &denomRef{K: "i"}, X: "50", To: 2, Fmt: "hex"},
+			{K: "convert", A: 3, D: &denomRef{K: "i", Sp: 1}, X: "5", To: 2, Fmt: "hex"},
+			{K: "meta", D: &denomRef{K: "i", Sp: 1}},
+			{K: "create_coin", A: 4, D: &denomRef{K: "i", Sp: 1}}, {K: "create_coin", A: 3, D: &denomRef{K: "i", Sp: 1}},
+			{K: "convert", A: 3, D: &denomRef{K: "i", Sp: 1}, X: "30", To: 2, Fmt: "hex"},
+			{K: "send_to_evm", A: 1, D: &denomRef{K: "i", Sp: 2}, X: "1", To: 2, Fmt: "hex"},
+			{K: "send_to_bank", A: 1, T: 0, X: "40", To: 4, Fmt: "bech32"},
+			{K: "create_coin", A: 3, D: c0},
+			{K: "create_coin", A: 3, D: &denomRef{K: "c", Sp: 1}},
+			{K: "meta", D: &denomRef{K: "c", Sp: 1}},
+			{K: "create_coin", A: 3, D: &denomRef{K: "c", Sp: 1}},
+			{K: "deploy", A: 1, Kind: "std"},
+			{K: "create_erc20", A: 3, T: 4},
+			{K: "create_coin", A: 3, D: &denomRef{K: "e", N: 4, Sp: 1}},
+			{K: "meta", D: &denomRef{K: "e", N: 4, Sp: 1}},
+			{K: "create_coin", A: 3, D: &denomRef{K: "e", N: 4, Sp: 1}},
+			{K: "create_coin", A: 3, D: &denomRef{K: "e", N: 4}},
+			{K: "convert", A: 3, D: &denomRef{K: "i"}, X: "7", To: 5, Fmt: "hex"},
 		}),
 		// standard and heavy ERC20-born mappings
 		cat(pre, []c06Op{
